@@ -165,7 +165,7 @@ func runCheck(repo, verif, prop, tier string, workers int, verbose bool) int {
 		fails = append(fails, failure{Name: "tables/" + n, Kind: "table", Status: "not generated", Desc: n, Reason: n})
 	}
 	// ---- Level 2 lemmas
-	lobls, lerrs := lemmaObligations(verif, ps.Lemmas)
+	lobls, lerrs := eng.lemmaObligations(verif, ps.Lemmas)
 	all = append(all, lobls...)
 	for _, e := range lerrs {
 		fails = append(fails, failure{Name: "lemmas", Kind: "lemma", Status: "not generated", Desc: e, Reason: e})
